@@ -93,11 +93,13 @@ def se3_from(qtrans):
 class Probe:
     """all views of an object, read from deep copies (state preserving)"""
     __slots__ = ("n", "pos", "quat", "poses", "ts", "dist", "plen", "speeds",
-                 "speeds_exc", "cls", "err")
+                 "speeds_exc", "cls", "err", "meta")
 
     def equal_bits(self, other):
         if self.n != other.n or self.cls != other.cls:
             return "num_poses/type"
+        if self.meta != other.meta:
+            return "meta"
         for name in ("pos", "quat", "poses", "ts", "dist"):
             a, b = getattr(self, name), getattr(other, name)
             if (a is None) != (b is None):
@@ -152,6 +154,10 @@ class Machine:
         p = Probe()
         p.err = None
         p.cls = type(obj).__name__
+        try:
+            p.meta = repr(sorted(copy.deepcopy(obj.meta).items()))
+        except Exception:  # noqa
+            p.meta = repr(getattr(obj, "meta", None))
         stamped = isinstance(obj, T.PoseTrajectory3D)
         # every view is read first on its own fresh deep copy, so that a stale
         # cache of that view cannot be repaired by reading another view first
